@@ -390,6 +390,40 @@ def run_r5(chk: Check, prog: Program, S: Summaries) -> None:
     chk.analysed["clone_from_root_small_tree_runs"] = n
 
 
+class _OnlyRule:
+    """Forwards the obligations of one rule id and drops the rest (a shared clause that reports several rules)."""
+
+    def __init__(self, chk, keep: str):
+        self._chk, self._keep = chk, keep
+
+    def __getattr__(self, name):
+        return getattr(self._chk, name)
+
+    def _fwd(self, name, rule, *a, **k):
+        if self._chk._r(rule) == self._keep:
+            getattr(self._chk, name)(rule, *a, **k)
+
+    def rule(self, rid, text, minimum=1):
+        if self._chk._r(rid) == self._keep:
+            self._chk.rule(rid, "rewritten trees are structurally sound - the precondition of cloning them (clause C07.R1)", minimum)
+
+    def ok(self, rule, *a, **k):
+        self._fwd("ok", rule, *a, **k)
+
+    def fail(self, rule, *a, **k):
+        self._fwd("fail", rule, *a, **k)
+
+    def undecided(self, rule, *a, **k):
+        self._fwd("undecided", rule, *a, **k)
+
+    def info(self, rule, *a, **k):
+        self._fwd("info", rule, *a, **k)
+
+    def verdict(self, cond, rule, *a, **k):
+        if self._chk._r(rule) == self._keep:
+            self._chk.verdict(cond, rule, *a, **k)
+
+
 def run(chk: Check) -> None:
     prog = program(chk)
     S = Summaries(prog)
@@ -406,7 +440,8 @@ def run(chk: Check) -> None:
         "node whose ancestor chain mirrors the receiver's chain kind by kind and side by side in freshly built nodes, "
         "and leaves no tracked clone behind; (R5) clone_from_root() with the real clone() on every node (no induction "
         "hypothesis) for every node of every tree of depth <= 2 over {Constant, Variable, Negate, Add, Multiply} returns "
-        "the copy of that very node at the same position. Not decided: clone_from_root(other_node); equality of printed/evaluated "
+        "the copy of that very node at the same position; (R6) every tree a rewrite produces has consistent links (the "
+        "clause C07.R1), so trees 'produced by rewrites' satisfy what cloning presupposes. Not decided: clone_from_root(other_node); equality of printed/evaluated "
         "results (follows from shape + payload equality by C04/C05 clauses).")
     chk.assumptions = ["W for the input tree; unary operand side is the one recorded in child_on_left",
                        "induction hypothesis: clone() of a proper subtree is a correct deep copy"]
@@ -414,5 +449,12 @@ def run(chk: Check) -> None:
     run_r2(chk, prog, S)
     run_r4(chk, prog, S)
     run_r5(chk, prog, S)
+    # trees 'produced by rewrites' are in the quantifier: cloning (and clone_from_root's walk to the root) presupposes
+    # consistent links, so the link audit of every rewritten tree (the clause C07.R1) runs under this property too
+    from .common import rule_records
+    from .c07 import run_cases as link_audit
+    recs = rule_records(chk)
+    proxy = chk.renamed({"C07.R1": "C13.R6", "C07.R3": "C13.X", "C07.R4": "C13.X", "C07.R6": "C13.X", "C07.R7": "C13.X"})
+    link_audit(_OnlyRule(proxy, "C13.R6"), recs, pid="C07")
     chk.exhaustive = True
     chk.max_undecided = 0
